@@ -64,8 +64,13 @@ pub const WIRE_PROPS: &[PropInfo] = &[
         rule: "one case = 1-6 stream scenarios over a simulated byte pipe: round trips of 1-4 generated Request/Response values under fragmentation, short writes and EINTR; frames truncated at an arbitrary byte then EOF; random / plausible-header garbage; valid frames with header-biased byte changes; non-trivial = at least one round trip ran under fragmentation or EINTR and at least one malformed stream was rejected; distinct = distinct fingerprints of the scenario log" },
 ];
 
+pub const THREAD_PROPS: &[PropInfo] = &[
+    PropInfo { id: "C14", engine: Engine::Thread, level: "exploration", quick_runs: 480, thorough_runs: 40000, watchdog_s: 40,
+        rule: "one case = one thread schedule: 2-4 client threads (own session or autocommit, same or different tables, 1-4 pool workers) run against the real engine with exactly one thread runnable at a time; a seeded PRNG picks the next thread at every lock / latch / queue / job-wait point; non-trivial = at least 10 context switches and one failed poll (a thread found its lock taken); distinct = distinct hashes of the (thread, site) trace" },
+];
+
 pub fn prop(id: &str) -> Option<&'static PropInfo> {
-    PROPS.iter().chain(CRASH_PROPS.iter()).chain(STORE_PROPS.iter()).chain(WIRE_PROPS.iter()).find(|p| p.id == id)
+    PROPS.iter().chain(CRASH_PROPS.iter()).chain(STORE_PROPS.iter()).chain(WIRE_PROPS.iter()).chain(THREAD_PROPS.iter()).find(|p| p.id == id)
 }
 
 /// Swarm: every run of a property draws its own workload mix.
